@@ -26,6 +26,8 @@ mod c18;
 mod c19;
 mod c16;
 mod c20;
+mod c20_more;
+mod c20_src;
 mod enc;
 mod out;
 mod redisx;
